@@ -7,7 +7,7 @@ from common import realize, circ_from_json, err_name
 from props.evalcommon import py_exec
 
 RULE = ('random circuits built through the public API over all 19 gate types, n-ary arity 2..5, repeated '
-        'operands, constants with operands, outputs that are inputs/repeated, unused inputs, reordered inputs '
+        'operands, twin gates (same type, same operands in another order), constants with operands, outputs that are inputs/repeated, unused inputs, reordered inputs '
         '(set_inputs) x output selections (None, subsets, repeats, empty); CNF clause lists and the literal '
         'map compared exactly; non-trivial = >=1 non-input gate reachable from a selected output; distinct = '
         'distinct (circuit, selection)')
@@ -56,7 +56,7 @@ def correspondence(ctx):
     rng = ctx.rng('corr')
     reqs, code = [], []
     for k in range(ctx.scale(500, 12000)):
-        j, info = gen.gen_circuit(rng, max_inputs=5, max_gates=ctx.scale(14, 30), max_arity=5)
+        j, info = gen.gen_circuit(rng, max_inputs=5, max_gates=ctx.scale(14, 30), max_arity=5, p_twin=0.12 if k % 3 == 0 else 0.0)
         j = realize(j)
         for sel in selections(rng, j):
             r = {'op': 'tseytin', 'c': j}
@@ -85,10 +85,32 @@ def sat(clauses):
     return s.get_model() if s.solve() else None
 
 
+def directed_twins():
+    """two gates of one order-sensitive type on the same operands in the two orders, separately and combined"""
+    out = []
+    for t in gen.CMP + gen.LR:
+        for comb in ('OR', 'AND', 'XOR', None):
+            gates = [['a', 'INPUT', []], ['b', 'INPUT', []], ['g1', t, ['a', 'b']], ['g2', t, ['b', 'a']]]
+            outs = ['g1', 'g2']
+            if comb:
+                gates.append(['g3', comb, ['g1', 'g2']])
+                outs = ['g3']
+            out.append({'gates': gates, 'inputs': ['a', 'b'], 'outputs': outs, 'blocks': []})
+    return out
+
+
 def search(ctx):
     rng = ctx.rng('search')
-    for k in range(ctx.scale(150, 4000)):
-        j, info = gen.gen_circuit(rng, max_inputs=ctx.scale(4, 6), max_gates=ctx.scale(10, 20), max_arity=5)
+    directed = directed_twins()
+    for k in range(-len(directed), ctx.scale(150, 4000)):
+        if k < 0:
+            j, info = directed[k], {'n_gates': 5, 'n_inputs': 2, 'twin': 1}
+            ctx.count('directed_twins')
+        else:
+            j, info = gen.gen_circuit(rng, max_inputs=ctx.scale(4, 6), max_gates=ctx.scale(10, 20), max_arity=5,
+                                      p_twin=0.2 if k % 2 == 0 else 0.0,
+                                      types=(gen.CMP + gen.LR) * 3 + gen.SYM_NARY + gen.UNARY + gen.CONST if k % 4 == 0 else None)
+        ctx.count('twin_gates=%d' % min(info.get('twin', 0), 3))
         j = realize(j)
         ins, outs = j['inputs'], j['outputs']
         # certified denotation per assignment
